@@ -393,3 +393,130 @@ func VF_C08_replay() {
 		vfAssert(err == nil && len(es) == 1 && es[0].Data[0] == byte('a'+i), "entry-content-changed-on-replay")
 	}
 }
+
+// ---------------------------------------------------------------------------
+// VF_C07_publish_twice: a commit handed to the state machine is not touched again: publishing the next
+// Ready's entries must not rewrite the proposals of the previous commit (the apply loop may still be
+// iterating it).
+func VF_C07_publish_twice() {
+	vfStubFunc("encoding/json.Unmarshal", c07Unmarshal)
+	commitC := make(chan *RaftCommit, 2)
+	rc := &RaftNode{commitC: commitC, stopc: make(chan struct{}), Node: &c07Node{}, transport: &rafthttp.Transport{}, id: 1}
+	n1 := 1 + vfChoice("first", 2)
+	n2 := 1 + vfChoice("second", 2)
+	var e1, e2 []raftpb.Entry
+	for i := 0; i < n1; i++ {
+		e1 = append(e1, raftpb.Entry{Index: uint64(i + 1), Data: c07Payload(byte('a' + i))})
+	}
+	for i := 0; i < n2; i++ {
+		e2 = append(e2, raftpb.Entry{Index: uint64(n1 + i + 1), Data: c07Payload(byte('p' + i))})
+	}
+	_, ok := rc.publishEntries(e1)
+	vfAssert(ok, "publish-refused")
+	first := <-commitC
+	_, ok = rc.publishEntries(e2)
+	vfAssert(ok, "publish-refused")
+	vfAssert(len(first.Data) == n1, "earlier-commit-resized")
+	for i := 0; i < n1 && i < len(first.Data); i++ {
+		vfAssert(first.Data[i].ID == string([]byte{byte('a' + i)}), "earlier-commit-rewritten-by-the-next-publish")
+	}
+	second := <-commitC
+	vfAssert(len(second.Data) == n2, "second-commit-content")
+}
+
+// ---------------------------------------------------------------------------
+// VF_C08_publish_snapshot: after a leader snapshot is installed the progress markers say so: applied
+// and snapshot index equal the snapshot's index (otherwise the next snapshot trigger / replay start is
+// computed from stale values), and the state machine was told to reload.
+func VF_C08_publish_snapshot() {
+	commitC := make(chan *RaftCommit, 1)
+	applied := uint64(vfChoice("applied", 4))
+	rc := &RaftNode{commitC: commitC, appliedIndex: applied, snapshotIndex: uint64(vfChoice("snapindex", int(applied)+1)), snapCount: 2}
+	si := applied + 1 + uint64(vfChoice("ahead", 5))
+	sn := raftpb.Snapshot{Data: []byte("state"), Metadata: raftpb.SnapshotMetadata{Index: si, Term: 2, ConfState: raftpb.ConfState{Voters: []uint64{1, 2, 3}}}}
+	rc.publishSnapshot(sn)
+	vfAssert(len(commitC) == 1, "state-machine-not-told-to-reload")
+	if len(commitC) == 1 {
+		vfAssert(<-commitC == nil, "reload-signal")
+	}
+	vfAssert(rc.appliedIndex == si, "applied-index-after-snapshot")
+	vfAssert(rc.snapshotIndex == si, "snapshot-index-after-snapshot")
+	vfAssert(len(rc.confState.Voters) == 3, "conf-state-after-snapshot")
+}
+
+// ---------------------------------------------------------------------------
+// VF_C08_load_snapshot: at start-up only a snapshot the WAL knows about is loaded: a newer snapshot file
+// without its WAL record (a crash between writing the file and the record) must be passed over.
+var c08fs map[string][]byte
+
+func c08ReadFile(name string) ([]byte, error) {
+	b, ok := c08fs[name]
+	if !ok {
+		return nil, os.ErrNotExist
+	}
+	return append([]byte(nil), b...), nil
+}
+func c08Rename(o, n string) error                 { c08fs[n] = c08fs[o]; delete(c08fs, o); return nil }
+func c08Remove(name string) error                 { delete(c08fs, name); return nil }
+func c08Open(name string) (*os.File, error)       { return &os.File{}, nil }
+func c08Close(f *os.File) error                   { return nil }
+func c08Readdirnames(f *os.File, n int) ([]string, error) {
+	var names []string
+	for k := range c08fs {
+		names = append(names, filepath.Base(k))
+	}
+	return names, nil
+}
+func c08WriteAndSync(filename string, data []byte, perm os.FileMode) error {
+	c08fs[filename] = append([]byte(nil), data...)
+	return nil
+}
+
+var c08WalSnaps []walpb.Snapshot
+
+func c08WalExist(dir string) bool { return true }
+func c08ValidSnapshotEntries(lg *zap.Logger, dir string) ([]walpb.Snapshot, error) {
+	return c08WalSnaps, nil
+}
+
+func VF_C08_load_snapshot() {
+	rc := &RaftNode{id: 1, logger: zap.NewNop()}
+	cs := raftpb.ConfState{Voters: []uint64{1, 2, 3}}
+	known := raftpb.Snapshot{Data: []byte("state3"), Metadata: raftpb.SnapshotMetadata{Index: 3, Term: 1, ConfState: cs}}
+	orphanIdx := uint64(4 + vfChoice("orphan", 3))
+	orphan := raftpb.Snapshot{Data: []byte("state?"), Metadata: raftpb.SnapshotMetadata{Index: orphanIdx, Term: 1, ConfState: cs}}
+	withOrphan := vfChoice("with-orphan", 2) == 1
+	if vfIsSymbolic() {
+		c08fs = map[string][]byte{}
+		vfStubFunc("os.ReadFile", c08ReadFile)
+		vfStubFunc("os.Rename", c08Rename)
+		vfStubFunc("os.Remove", c08Remove)
+		vfStubFunc("os.Open", c08Open)
+		vfStubFunc("(*os.File).Readdirnames", c08Readdirnames)
+		vfStubFunc("(*os.File).Close", c08Close)
+		vfStubFunc("go.etcd.io/etcd/pkg/v3/ioutil.WriteAndSyncFile", c08WriteAndSync)
+		vfStubFunc("go.etcd.io/etcd/server/v3/storage/wal.Exist", c08WalExist)
+		vfStubFunc("go.etcd.io/etcd/server/v3/storage/wal.ValidSnapshotEntries", c08ValidSnapshotEntries)
+		rc.waldir, rc.snapdir = "/vfwal", "/vfsnap"
+		rc.snapshotter = snap.New(zap.NewNop(), rc.snapdir)
+		c08WalSnaps = []walpb.Snapshot{{}, {Index: 3, Term: 1}}
+		vfAssert(rc.snapshotter.SaveSnap(known) == nil, "save-snap")
+		if withOrphan {
+			vfAssert(rc.snapshotter.SaveSnap(orphan) == nil, "save-snap")
+		}
+	} else {
+		w := c07NativeWAL()
+		rc.waldir, rc.snapdir = filepath.Join(c07Dir, "wal"), filepath.Join(c07Dir, "snap")
+		os.Mkdir(rc.snapdir, 0o750)
+		rc.snapshotter = snap.New(zap.NewNop(), rc.snapdir)
+		rc.wal = w
+		w.Save(raftpb.HardState{Term: 1, Commit: 3}, []raftpb.Entry{{Index: 1, Term: 1}, {Index: 2, Term: 1}, {Index: 3, Term: 1}})
+		rc.saveSnap(known) // file + WAL record
+		if withOrphan {
+			rc.snapshotter.SaveSnap(orphan) // the file only: the crash came before the WAL record
+		}
+		w.Close()
+	}
+	got := rc.loadSnapshot()
+	vfAssert(got != nil && got.Metadata.Index == 3, "loaded-a-snapshot-the-wal-does-not-know")
+}
